@@ -141,20 +141,26 @@ type Locker interface {
 	Unlock()
 }
 
-// Cond replaces sync.Cond (Wait / Broadcast only, which is all internal/xsync uses).
+// Cond replaces sync.Cond (Wait / Signal / Broadcast).  Waiters hold tickets; Signal releases the oldest
+// outstanding ticket, Broadcast all of them.
 type Cond struct {
-	L   Locker
-	gen *int64
+	L Locker
+	s *condState
 }
 
-func NewCond(l Locker) *Cond { return &Cond{L: l, gen: new(int64)} }
+type condState struct {
+	next     int64 // next ticket to hand out
+	released int64 // tickets < released may proceed
+}
+
+func NewCond(l Locker) *Cond { return &Cond{L: l, s: new(condState)} }
 func (c *Cond) Wait() {
-	g := atomic.LoadInt64(c.gen)
-	y("CondWaitUnlock", unsafe.Pointer(c.gen), nil)
+	t := atomic.AddInt64(&c.s.next, 1) - 1
+	y("CondWaitUnlock", unsafe.Pointer(c.s), nil)
 	c.L.(*Mutex).unlockQuiet()
-	for atomic.LoadInt64(c.gen) == g {
+	for atomic.LoadInt64(&c.s.released) <= t {
 		if Hook != nil {
-			y("CondWait", unsafe.Pointer(c.gen), func() bool { return atomic.LoadInt64(c.gen) == g })
+			y("CondWait", unsafe.Pointer(c.s), func() bool { return atomic.LoadInt64(&c.s.released) <= t })
 		} else {
 			runtime.Gosched()
 		}
@@ -166,7 +172,16 @@ func (m *Mutex) unlockQuiet() {
 		panic("vshim: unlock of unlocked mutex")
 	}
 }
-func (c *Cond) Broadcast() { y("Broadcast", unsafe.Pointer(c.gen), nil); atomic.AddInt64(c.gen, 1) }
+func (c *Cond) Broadcast() {
+	y("Broadcast", unsafe.Pointer(c.s), nil)
+	atomic.StoreInt64(&c.s.released, atomic.LoadInt64(&c.s.next))
+}
+func (c *Cond) Signal() {
+	y("Signal", unsafe.Pointer(c.s), nil)
+	if atomic.LoadInt64(&c.s.released) < atomic.LoadInt64(&c.s.next) {
+		atomic.AddInt64(&c.s.released, 1)
+	}
+}
 
 // Value replaces atomic.Value.
 type Value struct{ v atomic.Value }
